@@ -101,6 +101,12 @@ theorem req_decodes_bad_coil_value (h1 l1 h2 l2 : UInt8) (rest : Bytes)
 
 /-! ### non-vacuity: concrete instances, checked by evaluation in the kernel -/
 
+/-- the hypotheses of `req_decodes_spec_refuses_high` and `req_decodes_bad_coil_value` -/
+example : (0x90 : UInt8) ∉ modelledReqCodes ∧ ¬ (0x90 : UInt8) < 0x80 := by decide +kernel
+example : Request.decode [0x90, 1, 2] = .err (.fnCode 0x90) := by decide +kernel
+example : rd16 0x00 0x01 ≠ 0xFF00 ∧ rd16 0x00 0x01 ≠ 0x0000 := by decide +kernel
+example : Request.decode [0x05, 0, 7, 0x00, 0x01] = .err (.coilValue 1) := by decide +kernel
+
 /-- nine coils built in a dirty target with one byte of excess capacity, address 0xFFFF:
     `0F FF FF 00 09 02 CD 01` — LSB-first packing, zero padding, no trace of the target -/
 example : ∃ c, Coils.fromBools [true, false, true, true, false, false, true, true, true] [0xFF, 0xFF, 0xAA] = .ok c ∧
